@@ -102,3 +102,18 @@ def magnitude(n):
 
 
 DIAG_HEAD = re.compile(r"\At\.sd:(\d+):(\d+): (.*)\n\Z", re.S)
+
+
+def corpus_specs(pid, build):
+    """the specs of the scripts stored in /verif/corpus/<pid>/ (they run first); a file that is not the script its trailer
+    describes is skipped"""
+    import core
+    d = core.VERIF / "corpus" / pid
+    out = []
+    if d.is_dir():
+        for fp in sorted(d.glob("*.sd")):
+            src = fp.read_text()
+            spec = spec_of(pid, src)
+            if spec is not None and build(spec) == src:
+                out.append(spec)
+    return out
